@@ -7,6 +7,8 @@ import Blue.Proofs.ConstsTieC05
 import Blue.Proofs.GcExact
 import Blue.Proofs.CompactTables
 import Blue.Proofs.CompactEntry
+import Blue.Proofs.StoreHistGc
+import Blue.Proofs.StoreHistGcTree
 /-! # Property C05 — compaction conserves every version; GC discards only what policy permits
 
 Property theorems only (helper lemmas live in `Blue/Proofs/{Gc,GcPolicy,Conserve,CompactCut,
@@ -27,7 +29,9 @@ retained `(key, timestamp)`s.
 Reading guide.  *Theorems with content*: `gc_runs*`, `gc_factors_through_decisions`, `any_is_union`,
 `all_is_intersection`, `newest_value_kept*`, `key_keeps_head_or_goes`, `retained_is_prefix`,
 `default_policy_exact`, `only_tombstones_dropped`; `merged_is_M`, `merged_is_sorted_union`,
-`pipeline_conserves*`, `pipeline_reads_unchanged`.  *Upper bound only*: `gc_output_sublist` (the
+`pipeline_conserves*`, `pipeline_reads_unchanged`; at history level (block `StoreHistGc`)
+`gc_step_preserves_inv`, `gc_step_reads`, `history_refines_gc`, `history_load_gc`,
+`gcP_meets_obligation`, `gc_step_from_selector`.  *Upper bound only*: `gc_output_sublist` (the
 collector that retains nothing meets it too).  *Model facts / list lemmas* (no cursor in them; kept
 because other statements cite them): `children_perm_merged`, `cut_flatten`, `compaction_conserves`
 — the "inputs" there are *defined* as the owner-filters of `M`.
@@ -393,6 +397,246 @@ example : ((Blue.Compact.cut [2, 2] (Blue.Compact.merged Blue.Compact.entryLt [t
 example : ∃ M, Family natLt M 2 ∧ (List.range 2).map (childList M) = [[10, 30], [20]] :=
   family_of_tables natLt_strictTotal [[10, 30], [20]] (by decide) (by decide)
 
+-- BEGIN StoreHistGc
+/-! ## garbage-collecting compactions inside the store's history (`Blue.Proofs.StoreHistGc`)
+
+`Blue.StoreHist.history_refines` (C01) covers histories whose compactions conserve every version
+(`CompactionOk.hsame`).  The compaction into the last level does not: `perform_compaction` calls
+`perform_garbage_collection` when `compaction.top_level()`.  A `compact` step may now carry
+`GcCompactionOk` instead: outputs ⊆ inputs (`hsub`, what `gc_output_sublist` gives), `hnewest`
+(`NewestKept`: per key of the inputs, the newest input version is an output — what
+`newest_value_kept_every_policy` gives for a VALUE under `selectsNewest` — or it is a TOMBSTONE
+and whatever is kept of the key starts with a tombstone or is nothing: `key_keeps_head_or_goes`,
+`default_policy_exact`), and `hlast` (nothing below the outputs holds a key of the inputs: the
+output level is the last one).  `gcP_meets_obligation`: the collector model `gcP` — the one the
+driver compares with `GarbageCollector::next` — meets `hsub` and `hnewest` on every merged run
+(runs of distinct keys, each strictly newest-first), for every well-formed policy with
+`selectsNewest`.  REMAINING HYPOTHESES of a GC step: `hlast`, and as for `CompactionOk` the
+placement facts (`hsplit`, `hclosed`, `houts`, `hkept`, `hdis`, `hplace`, `hl0`, `hI1`); that the
+step's inputs/outputs ARE the merged run / the collector's output (`obligations_of_collector`'s
+`hin`, `hout`) and that the payload map agrees with the tables' tombstone flags (`hpay`). -/
+section StoreHistGc
+open Blue.StoreHist Blue.StoreHistGc Blue.Spec Blue.Kvs
+
+/-- the invariant of the history model survives a garbage-collecting compaction -/
+theorem gc_step_preserves_inv (h : HState) (l0' : List KFile) (levels' : List (List KFile))
+    (ok : GcCompactionOk h.pay h.st { h.st with l0 := l0', levels := levels' }) (inv : Inv h) :
+    Inv (apply h (.compact l0' levels')) :=
+  Blue.StoreHistGc.gc_step_preserves_inv h l0' levels' ok inv
+
+/-- across a garbage-collecting compaction every point read at or above the published sequence
+    number answers the same payload, except "tombstone" may become "no version" -/
+theorem gc_step_reads (h : HState) (l0' : List KFile) (levels' : List (List KFile))
+    (ok : GcCompactionOk h.pay h.st { h.st with l0 := l0', levels := levels' }) (inv : Inv h)
+    (k t : Nat) (ht : h.vis ≤ t) :
+    readAt (apply h (.compact l0' levels')) k t = readAt h k t
+    ∨ (readAt h k t = some none ∧ readAt (apply h (.compact l0' levels')) k t = none) :=
+  Blue.StoreHistGc.gc_step_reads h l0' levels' ok inv k t ht
+
+/-- … and the `Option<value>` `load` returns does not change at all -/
+theorem gc_step_load_unchanged (h : HState) (l0' : List KFile) (levels' : List (List KFile))
+    (ok : GcCompactionOk h.pay h.st { h.st with l0 := l0', levels := levels' }) (inv : Inv h) (k : Nat) :
+    (Blue.StoreHist.read (apply h (.compact l0' levels')) k).join = (Blue.StoreHist.read h k).join :=
+  Blue.StoreHistGc.gc_step_load_unchanged h l0' levels' ok inv k
+
+/-- **history_refines_gc**: any history of writes, rollovers, flushes and compactions — each
+    compaction conserving (`CompactionOk`) or garbage-collecting (`GcCompactionOk`) — from the empty
+    store reads the payload of the last accepted write; a deleted key may read "no version" -/
+theorem history_refines_gc (ops : List Op) (hv : GcValid init ops) (k : Nat) :
+    Blue.StoreHist.read (run init ops) k = lastWrite ops k
+    ∨ (lastWrite ops k = some none ∧ Blue.StoreHist.read (run init ops) k = none) :=
+  Blue.StoreHistGc.history_refines_gc ops hv k
+
+/-- the answer of `load` (`Some v` / `None`) is that of the last accepted write: GC never discards
+    the current value of a key and never brings a deleted one back -/
+theorem history_load_gc (ops : List Op) (hv : GcValid init ops) (k : Nat) :
+    (Blue.StoreHist.read (run init ops) k).join = (lastWrite ops k).join :=
+  Blue.StoreHistGc.history_load_gc ops hv k
+
+theorem history_put_survives_gc (ops : List Op) (hv : GcValid init ops) (k v : Nat)
+    (hw : lastWrite ops k = some (some v)) : Blue.StoreHist.read (run init ops) k = some (some v) :=
+  Blue.StoreHistGc.history_put_survives_gc ops hv k v hw
+
+theorem history_invariant_gc (ops : List Op) (hv : GcValid init ops) : Inv (run init ops) :=
+  Blue.StoreHistGc.history_invariant_gc ops hv
+
+/-- the histories of C01 are among them -/
+theorem gcValid_of_valid (ops : List Op) (hv : Valid init ops) : GcValid init ops :=
+  GcValid.of_valid ops init hv
+
+/-- **gcP_meets_obligation**: for every well-formed policy that selects newest versions the
+    collector's output on a merged run — runs of pairwise distinct keys, each strictly newest
+    first, tombstone flags agreeing with the payload map — holds only input versions and, per key,
+    the newest input version, or (newest a tombstone) starts with a tombstone or holds nothing -/
+theorem gcP_meets_obligation (pay : Nat → Nat → Option Payload) (p : Policy) (hwf : p.WF)
+    (now : Nat) (k0 : Option Nat) (hp : p.selectsNewest now = true)
+    (gs : List (Nat × List (Ent Nat))) (hr : Runs gs)
+    (hts : ∀ q ∈ gs, q.2.Pairwise (fun a b => b.ts < a.ts))
+    (hpay : ∀ e ∈ flat gs, (pay e.key e.ts = some none ↔ e.tomb = true)) :
+    (∀ e ∈ gcP p now k0 (flat gs), e ∈ ents (flat gs))
+    ∧ NewestKept pay (ents (flat gs)) (gcP p now k0 (flat gs)) :=
+  Blue.StoreHistGc.gcP_meets_obligation pay p hwf now k0 hp gs hr hts hpay
+
+/-- … hence `hsub` and `hnewest` of a step whose inputs hold the merged run and whose outputs hold
+    what the collector returned -/
+theorem obligations_of_collector (pay : Nat → Nat → Option Payload) (p : Policy) (hwf : p.WF)
+    (now : Nat) (k0 : Option Nat) (hp : p.selectsNewest now = true)
+    (gs : List (Nat × List (Ent Nat))) (hr : Runs gs)
+    (hts : ∀ q ∈ gs, q.2.Pairwise (fun a b => b.ts < a.ts))
+    (hpay : ∀ e ∈ flat gs, (pay e.key e.ts = some none ↔ e.tomb = true))
+    (ins outs : List (Ver Nat)) (hin : ∀ e, e ∈ ins ↔ e ∈ ents (flat gs))
+    (hout : ∀ e, e ∈ outs ↔ e ∈ gcP p now k0 (flat gs)) :
+    (∀ e ∈ outs, e ∈ ins) ∧ NewestKept pay ins outs :=
+  Blue.StoreHistGc.obligations_of_collector pay p hwf now k0 hp gs hr hts hpay ins outs hin hout
+
+/-! ### non-vacuity: key 5 put twice, key 7 put then deleted, rollover, flush, key 9 put, rollover,
+    flush (two level-0 files), a garbage collection into the only level (`versions = 1`: drops
+    `5@1`, the tombstone `7@4` and `7@3` under it), then a delete of key 3 -/
+namespace HistGc
+
+def ops : List Op :=
+  [.write [(5, some 50)], .write [(5, some 51)], .write [(7, some 70)], .write [(7, none)],
+   .rollover, .flush, .write [(9, some 90)], .rollover, .flush,
+   .compact [] [[⟨5, 9, 6, [(5, 2), (9, 6)]⟩]],
+   .write [(3, none)]]
+
+theorem before_gc : (run init (ops.take 9)).st
+    = ⟨[], none, [⟨9, 9, 6, [(9, 6)]⟩, ⟨5, 7, 4, [(7, 4), (7, 3), (5, 2), (5, 1)]⟩], []⟩ := by rfl
+
+theorem ops_valid : GcValid init ops := by
+  refine ⟨trivial, trivial, trivial, trivial, trivial, trivial, trivial, trivial, trivial, Or.inr ?_, trivial, trivial⟩
+  show GcCompactionOk (run init (ops.take 9)).pay (run init (ops.take 9)).st _
+  rw [before_gc]
+  refine .mk [(true, [(9, 6)]), (true, [(7, 4), (7, 3), (5, 2), (5, 1)])] [] [[(5, 2), (9, 6)]] [] [] rfl rfl ?_
+    (closedB_sound _ (by decide)) (by decide) (newestKeptB_sound _ _ _ (by decide))
+    (fun c hc => by cases hc) (by decide) rfl (fun c hc => by cases hc) ?_ (fun g hg => by cases hg)
+    (i1_of_check _ (by decide))
+  · unfold treeComps l0Comps
+    rw [l0Order_cons_top _ _ (by decide), l0Order_cons_top _ _ (by decide), l0Order_nil]
+    rfl
+  · unfold treeComps l0Comps
+    show (l0Order []).map _ ++ _ = _
+    rw [l0Order_nil]
+    rfl
+
+/-- not a conserving compaction: `5@1`, `7@4`, `7@3` (all in the second file of `before_gc`) are gone -/
+example : (5, 1) ∉ (allComps (run init ops).st).flatten ∧ (7, 4) ∉ (allComps (run init ops).st).flatten
+    ∧ (7, 3) ∉ (allComps (run init ops).st).flatten := by
+  have e : (run init ops).st = ⟨[(3, 8)], none, [], [[⟨5, 9, 6, [(5, 2), (9, 6)]⟩]]⟩ := by rfl
+  rw [e]
+  decide +kernel
+
+/-- the merged run of the two level-0 files of `before_gc`, as the collector sees it -/
+def mergedRun : List (Nat × List (Ent Nat)) :=
+  [(5, [⟨5, 2, false⟩, ⟨5, 1, false⟩]), (7, [⟨7, 4, true⟩, ⟨7, 3, false⟩]), (9, [⟨9, 6, false⟩])]
+
+theorem mergedRun_runs : Runs mergedRun := by
+  refine ⟨?_, ?_, ?_⟩
+  · intro p hp; simp only [mergedRun, List.mem_cons, List.not_mem_nil, or_false] at hp
+    rcases hp with rfl | rfl | rfl <;> intro e he <;> simp at he
+    · rcases he with rfl | rfl <;> rfl
+    · rcases he with rfl | rfl <;> rfl
+    · rw [he]
+  · intro p hp; simp only [mergedRun, List.mem_cons, List.not_mem_nil, or_false] at hp
+    rcases hp with rfl | rfl | rfl <;> simp
+  · decide
+
+/-- the outputs of the step of `ops` are what the collector returns under lsmtk's default policy … -/
+example : gcP (.versions 1) 0 none (flat mergedRun) = [(5, 2), (9, 6)] := by decide
+
+/-- … and `hsub` / `hnewest` of that step follow from `obligations_of_collector` -/
+example : (∀ e ∈ [[((5 : Nat), 2), (9, 6)]].flatten, e ∈ [[((9 : Nat), 6)], [(7, 4), (7, 3), (5, 2), (5, 1)]].flatten)
+    ∧ NewestKept (run init (ops.take 9)).pay [[((9 : Nat), 6)], [(7, 4), (7, 3), (5, 2), (5, 1)]].flatten
+        [[((5 : Nat), 2), (9, 6)]].flatten :=
+  obligations_of_collector _ (.versions 1) (by simp [Policy.WF]) 0 none (by decide) mergedRun mergedRun_runs
+    (by decide) (by decide) _ _ (mem_iff_of_subsets (by decide) (by decide))
+    (mem_iff_of_subsets (by decide) (by decide))
+
+theorem last_writes : lastWrite ops 5 = some (some 51) ∧ lastWrite ops 7 = some none
+    ∧ lastWrite ops 9 = some (some 90) ∧ lastWrite ops 3 = some none ∧ lastWrite ops 4 = none := by decide
+
+/-- the theorem instantiated: the current value of key 5 survives the collection … -/
+example : Blue.StoreHist.read (run init ops) 5 = some (some 51) :=
+  history_put_survives_gc ops ops_valid 5 51 last_writes.1
+
+example : (Blue.StoreHist.read (run init ops) 7).join = none ∧ (Blue.StoreHist.read (run init ops) 9).join = some 90 := by
+  rw [history_load_gc ops ops_valid, history_load_gc ops ops_valid, last_writes.2.1, last_writes.2.2.1]
+  exact ⟨rfl, rfl⟩
+
+/-- … and the store side by evaluation: key 7 (deleted, tombstone collected) really reads "no
+    version" — the exception of `history_refines_gc` occurs — while key 3's tombstone is still in
+    the memtable -/
+example : kvsLoad (run init ops).st 7 8 = none ∧ lastWrite ops 7 = some none
+    ∧ kvsLoad (run init ops).st 5 8 = some (5, 2) ∧ (run init ops).pay 5 2 = some (some 51)
+    ∧ kvsLoad (run init ops).st 3 8 = some (3, 8) ∧ (run init ops).pay 3 8 = some none
+    ∧ (run init ops).vis = 8 := by
+  have e : (run init ops).st = ⟨[(3, 8)], none, [], [[⟨5, 9, 6, [(5, 2), (9, 6)]⟩]]⟩ := by rfl
+  rw [e]
+  refine ⟨by decide +kernel, last_writes.2.1, by decide +kernel, by rfl, by decide +kernel, by rfl, by rfl⟩
+
+/-- before the collection the newest version of key 7 was the tombstone `7@4` (`before_gc`) -/
+example : (run init (ops.take 9)).pay 7 4 = some none ∧ (run init (ops.take 9)).pay 7 3 = some (some 70) :=
+  ⟨by rfl, by rfl⟩
+
+end HistGc
+/-! ### the step for `apply_compaction_inner` on a compaction into the last level -/
+section Tree
+open Blue.NextCompaction
+
+/-- `Compaction::top_level` (`upper_level == NUM_LEVELS - 1`) in the tree model: nothing lies below
+    the output level, which is the obligation `hlast` -/
+theorem last_level_has_nothing_below (t : Tree) {upper : Nat} (h : upper + 1 = t.length) :
+    belowComps t upper = [] := Blue.StoreHistGcTree.belowComps_last t h
+
+/-- **a garbage collection the selector chose IS a `GcCompactionOk` step**: for the selector's answer
+    `c` with `c.upper` the last level of a tree satisfying its invariant, the successor
+    `applyCompaction t c outs` under the same memtables meets `GcCompactionOk`; split, closedness,
+    `hlast`, placement, "level 0 gains nothing" and I1 of the successor are proved; the hypotheses
+    left are about the outputs: `OutsOk`, versions of input files only, `NewestKept`
+    (`obligations_of_collector`), "newer above" among themselves -/
+theorem gc_step_from_selector (pay : Nat → Nat → Option Payload) (n : Num) (o : Opts) (og : List Core)
+    (mem : List (Ver Nat)) (imm : Option (List (Ver Nat))) {t : Tree} {c : Core} {outs : List File}
+    (hinv : Blue.NextCompaction.Inv t) (hsel : nextCompaction n o t og = some c) (ho : OutsOk t c outs)
+    (htop : c.upper + 1 = t.length)
+    (hsub : ∀ o ∈ outs, ∀ e ∈ o.vers, ∃ i f, f ∈ level t i ∧ f.id ∈ c.inputs ∧ e ∈ f.vers)
+    (hnewest : NewestKept pay (inputs (tagTree t c)).flatten (comps outs).flatten)
+    (hnew : NewerAbove (comps outs)) :
+    GcCompactionOk pay (toKState mem imm t) (toKState mem imm (applyCompaction t c outs)) :=
+  Blue.StoreHistGcTree.gcCompactionOk_of_apply pay n o og mem imm hinv hsel ho htop hsub hnewest hnew
+
+/-! non-vacuity: a two-level tree (level 1 is the last); the selector takes the level-0 file and
+    the level-1 file; `7@4` is a tombstone; under `versions = 1` the collector keeps `5@2` and `9@0` -/
+namespace TreeGc
+
+def mk (id first last size bts : Nat) (vers : List (Nat × Nat)) : File := ⟨id, first, last, size, bts, vers⟩
+
+def t4 : Tree :=
+  [[mk 2 5 7 100 4 [(5, 2), (5, 1), (7, 4), (7, 3)]],
+   [mk 3 5 9 100 1 [(5, 0), (7, 1), (9, 0)]]]
+def o4 : Opts := ⟨100, 1000000, 8, 4, 1000000⟩
+def c4 : Core := ⟨0, 1, 5, 9, [2, 3], 200⟩
+def out4 : File := mk 4 5 9 200 2 [(5, 2), (9, 0)]
+def pay4 : Nat → Nat → Option Payload := fun k t => if k = 7 ∧ t = 4 then some none else some (some (10 * k + t))
+
+theorem t4_inv : Blue.NextCompaction.Inv t4 := invB_sound (by decide +kernel)
+theorem t4_choice : nextCompaction ieee o4 t4 [] = some c4 := by decide +kernel
+
+example : gcP (.versions 1) 0 none (flat [(5, [⟨5, 2, false⟩, ⟨5, 1, false⟩, ⟨5, 0, false⟩]),
+    (7, [⟨7, 4, true⟩, ⟨7, 3, false⟩, ⟨7, 1, false⟩]), (9, [⟨9, 0, false⟩])])
+    = [((5 : Nat), 2), (9, 0)] := by decide
+
+example : GcCompactionOk pay4 (toKState [] none t4) (toKState [] none (applyCompaction t4 c4 [out4])) :=
+  gc_step_from_selector pay4 ieee o4 [] [] none t4_inv t4_choice
+    (outsOk_of_flatten (by decide) (by decide) (by decide) (by decide) (by decide)) rfl
+    (sub_of_flatten (by decide)) (newestKeptB_sound _ _ _ (by decide +kernel)) (by decide)
+
+example : applyCompaction t4 c4 [out4] = [[], [out4]] := by rfl
+
+end TreeGc
+end Tree
+end StoreHistGc
+-- END StoreHistGc
+
 end Blue.Props.C05
 
 #print axioms Blue.Props.C05.gc_versions_instance
@@ -427,3 +671,15 @@ end Blue.Props.C05
 #print axioms Blue.Props.C05.pipeline_reads_unchanged
 #print axioms Blue.Props.C05.compaction_reads_unchanged
 #print axioms Blue.Props.C05.gc_preserves_newer_above
+#print axioms Blue.Props.C05.gc_step_preserves_inv
+#print axioms Blue.Props.C05.gc_step_reads
+#print axioms Blue.Props.C05.gc_step_load_unchanged
+#print axioms Blue.Props.C05.history_refines_gc
+#print axioms Blue.Props.C05.history_load_gc
+#print axioms Blue.Props.C05.history_put_survives_gc
+#print axioms Blue.Props.C05.history_invariant_gc
+#print axioms Blue.Props.C05.gcValid_of_valid
+#print axioms Blue.Props.C05.gcP_meets_obligation
+#print axioms Blue.Props.C05.obligations_of_collector
+#print axioms Blue.Props.C05.last_level_has_nothing_below
+#print axioms Blue.Props.C05.gc_step_from_selector
